@@ -116,14 +116,14 @@ Section Proofs.
       destruct (seen l) eqn:Es.
       + inversion Hstep; subst c'; clear Hstep. constructor; simpl; auto.
         apply others_ok with (p := ptr s); auto. unfold stage_ok; simpl.
-        destruct Hst as [[H _]|[[H _]|[_ H]]]; try congruence. exact H.
+        destruct Hst as [[H _]|[[H _]|[_ H]]]; try congruence; try exact H.
       + destruct (casok l) eqn:Ec.
         * inversion Hstep; subst c'; clear Hstep. constructor; simpl; auto.
           apply others_ok with (p := ptr s); auto. unfold stage_ok; simpl.
-          destruct Hst as [[_ [_ H]]|[[_ [H _]]|[H _]]]; try congruence. exact H.
+          destruct Hst as [[_ [_ H]]|[[_ [H _]]|[H _]]]; try congruence; try exact H.
         * inversion Hstep; subst c'; clear Hstep. constructor; simpl; auto.
           apply others_ok with (p := ptr s); auto. unfold stage_ok; simpl.
-          destruct Hst as [[_ [H _]]|[[_ [_ H]]|[H _]]]; try congruence. auto.
+          destruct Hst as [[_ [H _]]|[[_ [_ H]]|[H _]]]; try congruence; auto.
     - (* Return *)
       inversion Hstep; subst c'; clear Hstep. constructor; simpl; auto.
       + apply others_ok with (p := ptr s); auto. unfold stage_ok; simpl. auto.
